@@ -34,3 +34,8 @@ pub fn start() {
 pub fn finish() -> Vec<String> {
     SINK.with(|s| s.borrow_mut().take().unwrap_or_default())
 }
+
+/// The edge-test helpers of the graph module applied to byte classes (see `graph::verif::edge_impl`).
+pub fn edge_impl(classes: &[Vec<(u8, u8)>]) -> String {
+    crate::graph::verif_edge_impl(classes)
+}
